@@ -10,8 +10,14 @@ Definition stale_sites : list (string * string * string * string * Z) := [
   ("happysimulator/components/behavior/stimulus.py", "targeted_stimulus", "event_time", "time=t; t := _to_instant(time)", 0);
   ("happysimulator/components/behavior/stimulus.py", "influence_propagation", "event_time", "time=t; t := _to_instant(time)", 0);
   ("happysimulator/components/client/client.py", "Client._send_request.on_complete", "event_time", "time=finish_time", 0);
+  ("happysimulator/components/client/connection_pool.py", "ConnectionPool.acquire", "wait_loop", "while elapsed < self._connection_timeout: yield poll_interval", 0);
   ("happysimulator/components/client/pooled_client.py", "PooledClient._send_request.on_complete", "event_time", "time=finish_time", 0);
   ("happysimulator/components/datastore/cache_warming.py", "CacheWarmer.start_warming", "event_time", "time=Instant.Epoch", 0);
+  ("happysimulator/components/datastore/cache_warming.py", "CacheWarmer.warm_keys", "wait_loop", "while True: yield delay", 0);
+  ("happysimulator/components/datastore/database.py", "Database._acquire_connection", "wait_loop", "while not acquired[0]: yield 0.01", 0);
+  ("happysimulator/components/datastore/replicated_store.py", "ReplicatedStore.get", "wait_loop", "while True: yield delay", 0);
+  ("happysimulator/components/datastore/replicated_store.py", "ReplicatedStore.put", "wait_loop", "while True: yield delay", 0);
+  ("happysimulator/components/datastore/replicated_store.py", "ReplicatedStore.delete", "wait_loop", "while True: yield delay", 0);
   ("happysimulator/components/datastore/soft_ttl_cache.py", "SoftTTLCache.get", "stale_now", "event from self._maybe_start_refresh() kept before a later yield", 0);
   ("happysimulator/components/deployment/rolling_deployer.py", "RollingDeployer._run_health_check.on_complete", "event_time", "time=finish_time", 0);
   ("happysimulator/components/industrial/appointment.py", "AppointmentScheduler.start_events", "event_time", "time=Instant.from_seconds(t)", 0);
@@ -21,6 +27,11 @@ Definition stale_sites : list (string * string * string * string * Z) := [
   ("happysimulator/components/industrial/perishable_inventory.py", "PerishableInventory.start_event", "event_time", "time=Instant.from_seconds(self.spoilage_check_interval_s)", 0);
   ("happysimulator/components/industrial/perishable_inventory.py", "PerishableInventory._handle_spoilage_check", "event_time", "time=Instant.from_seconds(now_s + self.spoilage_check_interval_s); now_s := now.to_seconds()", 0);
   ("happysimulator/components/industrial/shift_schedule.py", "ShiftedServer._schedule_next_shift", "event_time", "time=Instant.from_seconds(next_t); next_t := self.schedule.next_transition_after(current_s)", 0);
+  ("happysimulator/components/infrastructure/cpu_scheduler.py", "CPUScheduler.execute", "wait_loop", "while task.remaining_s > 0: yield self._context_switch_s", 0);
+  ("happysimulator/components/infrastructure/cpu_scheduler.py", "CPUScheduler.execute", "wait_loop", "while task.remaining_s > 0: yield self._policy.time_quantum_s(task) if selected else", 0);
+  ("happysimulator/components/infrastructure/cpu_scheduler.py", "CPUScheduler.execute", "wait_loop", "while task.remaining_s > 0: yield run_time", 0);
+  ("happysimulator/components/infrastructure/tcp_connection.py", "TCPConnection.send", "wait_loop", "while sent < segments: yield self._rto_s", 0);
+  ("happysimulator/components/infrastructure/tcp_connection.py", "TCPConnection.send", "wait_loop", "while sent < segments: yield self.rtt_s", 0);
   ("happysimulator/components/load_balancer/health_check.py", "HealthChecker._check_backend.on_complete", "event_time", "time=finish_time", 0);
   ("happysimulator/components/load_balancer/load_balancer.py", "LoadBalancer._forward_request.on_complete", "event_time", "time=finish_time", 0);
   ("happysimulator/components/messaging/message_queue.py", "MessageQueue._deliver_message", "stale_now", "Event(time=self._clock.now if self._clock else now) name now bound before a yield", 0);
@@ -30,6 +41,8 @@ Definition stale_sites : list (string * string * string * string * Z) := [
   ("happysimulator/components/microservice/saga.py", "Saga._execute_step.on_complete", "event_time", "time=finish_time", 0);
   ("happysimulator/components/microservice/saga.py", "Saga._execute_compensation.on_complete", "event_time", "time=finish_time", 0);
   ("happysimulator/components/microservice/sidecar.py", "Sidecar._forward_request.on_complete", "event_time", "time=finish_time", 0);
+  ("happysimulator/components/rate_limiter/distributed.py", "DistributedRateLimiter.check_and_increment", "wait_loop", "while True: yield delay", 0);
+  ("happysimulator/components/rate_limiter/distributed.py", "DistributedRateLimiter.check_and_increment", "wait_loop", "while True: yield delay", 1);
   ("happysimulator/components/rate_limiter/inductor.py", "Inductor._forward", "event_time", "time=now", 0);
   ("happysimulator/components/rate_limiter/inductor.py", "Inductor._ensure_poll_scheduled", "event_time", "time=poll_time; poll_time := now + wait", 0);
   ("happysimulator/components/rate_limiter/rate_limited_entity.py", "RateLimitedEntity._forward", "event_time", "time=now", 0);
@@ -42,6 +55,12 @@ Definition stale_sites : list (string * string * string * string * Z) := [
   ("happysimulator/components/resilience/timeout.py", "TimeoutWrapper._forward_request.on_complete", "event_time", "time=finish_time", 0);
   ("happysimulator/components/scheduling/job_scheduler.py", "JobScheduler._run_tick.on_complete", "event_time", "time=finish_time", 0);
   ("happysimulator/components/server/async_server.py", "AsyncServer._on_cpu_complete", "stale_now", "events in 'result_events' stamped in the enclosing function, emitted by nested generator io_wrapper after a yield", 0);
+  ("happysimulator/components/sync/barrier.py", "Barrier.wait", "wait_loop", "while not released[0]: yield wakeup", 0);
+  ("happysimulator/components/sync/condition.py", "Condition.wait", "wait_loop", "while not woken[0]: yield wakeup", 0);
+  ("happysimulator/components/sync/mutex.py", "Mutex.acquire", "wait_loop", "while not acquired[0]: yield wakeup", 0);
+  ("happysimulator/components/sync/rwlock.py", "RWLock.acquire_read", "wait_loop", "while not acquired[0]: yield wakeup", 0);
+  ("happysimulator/components/sync/rwlock.py", "RWLock.acquire_write", "wait_loop", "while not acquired[0]: yield wakeup", 0);
+  ("happysimulator/components/sync/semaphore.py", "Semaphore.acquire", "wait_loop", "while not acquired[0]: yield wakeup", 0);
   ("happysimulator/faults/network_faults.py", "InjectLatency.generate_events", "event_time", "time=Instant.from_seconds(self.start)", 0);
   ("happysimulator/faults/network_faults.py", "InjectLatency.generate_events", "event_time", "time=Instant.from_seconds(self.end)", 0);
   ("happysimulator/faults/network_faults.py", "InjectPacketLoss.generate_events", "event_time", "time=Instant.from_seconds(self.start)", 0);
